@@ -499,6 +499,104 @@ theorem intText_le_capacity (T : IntTy) (v : Int) (hr : T.InRange v) (hbits : 1 
       have := natDigits_length_le 10 v.toNat _ (by omega) (by omega) hlt
       omega
 
+/-! ### the repaired capacity in every base -/
+
+/-- non-strict variant of `pow_two_lt_pow_ten` for any base: `2^b ≤ base^a` makes `a/b` an upper estimate of
+`log_base 2`; `d·a/b + 1` digits hold every magnitude up to `2^d` INCLUSIVE (the most negative value of a
+narrow signed type is printed too) -/
+theorem pow_two_lt_pow_base (base a b : Nat) (h2 : 2 ≤ base) (hb : 0 < b) (hab : 2 ^ b ≤ base ^ a) (d : Nat) :
+    2 ^ d < base ^ (d * a / b + 1) := by
+  have h1 : d * a < (d * a / b + 1) * b := by
+    have := Nat.lt_mul_div_succ (d * a) hb
+    calc d * a < b * (d * a / b + 1) := this
+      _ = (d * a / b + 1) * b := Nat.mul_comm _ _
+  have h3 : (2 ^ d) ^ b < (base ^ (d * a / b + 1)) ^ b := by
+    calc (2 ^ d) ^ b = (2 ^ b) ^ d := by rw [← Nat.pow_mul, ← Nat.pow_mul, Nat.mul_comm]
+      _ ≤ (base ^ a) ^ d := Nat.pow_le_pow_left hab d
+      _ = base ^ (d * a) := by rw [← Nat.pow_mul, Nat.mul_comm]
+      _ < base ^ ((d * a / b + 1) * b) := Nat.pow_lt_pow_right (by omega) h1
+      _ = (base ^ (d * a / b + 1)) ^ b := by rw [Nat.pow_mul]
+  exact (Nat.pow_lt_pow_iff_left (by omega)).mp h3
+
+/-- the table entries are upper estimates of `100000·log_base 2` (kernel arithmetic on 100000-bit numbers) -/
+theorem digitsPerBit_3 : 2 ^ 100000 ≤ 3 ^ 63093 := by decide +kernel
+theorem digitsPerBit_4 : 2 ^ 100000 ≤ 4 ^ 50000 := by decide +kernel
+theorem digitsPerBit_8 : 2 ^ 100000 ≤ 8 ^ 33334 := by decide +kernel
+theorem digitsPerBit_5 : 2 ^ 100000 ≤ 5 ^ 43068 := by decide +kernel
+theorem digitsPerBit_6 : 2 ^ 100000 ≤ 6 ^ 38686 := by decide +kernel
+theorem digitsPerBit_7 : 2 ^ 100000 ≤ 7 ^ 35621 := by decide +kernel
+theorem digitsPerBit_9 : 2 ^ 100000 ≤ 9 ^ 31547 := by decide +kernel
+
+theorem digitsPerBit_spec (base : Nat) (h2 : 2 ≤ base) (h10 : base < 10) :
+    2 ^ 100000 ≤ base ^ digitsPerBit base := by
+  have h : base = 2 ∨ base = 3 ∨ base = 4 ∨ base = 5 ∨ base = 6 ∨ base = 7 ∨ base = 8 ∨ base = 9 := by omega
+  rcases h with h | h | h | h | h | h | h | h <;> subst h
+  · exact Nat.le_refl _
+  · exact digitsPerBit_3
+  · exact digitsPerBit_4
+  · exact digitsPerBit_5
+  · exact digitsPerBit_6
+  · exact digitsPerBit_7
+  · exact digitsPerBit_8
+  · exact digitsPerBit_9
+
+/-- magnitude of every value of `T` is at most `2^digits` -/
+theorem natAbs_le_two_pow_digits (T : IntTy) (v : Int) (hr : T.InRange v) (hbits : 1 ≤ T.bits) :
+    v.natAbs ≤ 2 ^ T.digits := by
+  obtain ⟨hlo, hhi⟩ := hr
+  have hp : (0 : Int) < 2 ^ (T.bits - 1) := Int.pow_pos (by omega)
+  have hq : (0 : Int) < 2 ^ T.bits := Int.pow_pos (by omega)
+  have : (v.natAbs : Int) ≤ 2 ^ T.digits := by
+    unfold IntTy.lowest at hlo; unfold IntTy.max at hhi; unfold IntTy.digits
+    cases hs : T.signed <;> simp [hs] at hlo hhi ⊢ <;> omega
+  exact_mod_cast this
+
+theorem intText_length_le (base : Nat) (v : Int) (k : Nat) (h2 : 2 ≤ base) (hk : v.natAbs < base ^ k) :
+    (intText base v).length ≤ (if v < 0 then 1 else 0) + k + (if v = 0 then 1 else 0) := by
+  by_cases hv : v = 0
+  · simp [intText, hv]
+  · by_cases hn : v < 0
+    · rw [intText_length_neg base v hn]
+      have : (-v).toNat = v.natAbs := by omega
+      have := natDigits_length_le base (-v).toNat k h2 (by omega) (by omega)
+      simp [hn]; omega
+    · rw [intText_length_pos base v (by omega)]
+      have : v.toNat = v.natAbs := by omega
+      have := natDigits_length_le base v.toNat k h2 (by omega) (by omega)
+      simp [hn, hv]; omega
+
+/-- `to_chars_capacity<T>{}(base)` characters hold the numeral of every value of `T` in every base -/
+theorem intText_le_capacityB (T : IntTy) (v : Int) (base : Nat) (h2 : 2 ≤ base) (hr : T.InRange v)
+    (hbits : 1 ≤ T.bits) : (intText base v).length ≤ intCapacityB T base := by
+  have habs := natAbs_le_two_pow_digits T v hr hbits
+  have hsgn : v < 0 → T.signed = true := by
+    intro hn
+    cases h : T.signed with
+    | true => rfl
+    | false => have := hr.1; simp [IntTy.lowest, h] at this; omega
+  -- the number of digits granted, and that it is enough for `2^digits`
+  have key : ∃ k, intCapacityB T base = (if T.signed then 1 else 0) + (k + 1) ∧ 2 ^ T.digits < base ^ (k + 1) := by
+    unfold intCapacityB
+    by_cases h10 : base < 10
+    · refine ⟨T.digits * digitsPerBit base / 100000, by rw [if_pos h10], ?_⟩
+      exact pow_two_lt_pow_base base (digitsPerBit base) 100000 h2 (by omega) (digitsPerBit_spec base h2 h10) T.digits
+    · refine ⟨T.digits * 30103 / 100000, by rw [if_neg h10], ?_⟩
+      have h := pow_two_lt_pow_ten 30103 100000 (by omega) two_pow_100000 T.digits
+      exact Nat.lt_of_lt_of_le h (Nat.pow_le_pow_left (by omega) _)
+  obtain ⟨k, hcap, hk⟩ := key
+  have hlen := intText_length_le base v (k + 1) h2 (by omega)
+  rw [hcap]
+  by_cases hv : v = 0
+  · subst hv
+    have : (intText base 0).length = 1 := by simp [intText]
+    omega
+  · by_cases hn : v < 0
+    · simp only [hsgn hn, if_true]
+      simp only [hn, hv, if_true, if_false] at hlen
+      omega
+    · simp only [hn, hv, if_false] at hlen
+      omega
+
 /-! ### the numeral read back -/
 
 theorem intText_value (base : Nat) (v : Int) (h2 : 2 ≤ base) (h36 : base ≤ 36) :
@@ -657,6 +755,13 @@ theorem descalePos_terminates (S : IntTy) (hs : S.signed = true) (h8 : 8 ≤ S.b
         · rw [hm]
           obtain ⟨he, hlo, hhi⟩ := mulS_signed hs hm
           simp only
+          have hs'0 : s' ≠ 0 := by
+            rw [he]
+            intro h0
+            rcases Int.mul_eq_zero.mp h0 with h0 | h0
+            · exact hne h0
+            · omega
+          rw [if_neg hs'0]
           have hb := natAbs_le_of_range hs hlo hhi
           rw [← hB] at hb
           cases ie with
@@ -664,11 +769,7 @@ theorem descalePos_terminates (S : IntTy) (hs : S.signed = true) (h8 : 8 ≤ S.b
           | succ j =>
             rw [Nat.succ_mul] at h
             apply ih
-            · rw [he]
-              intro h0
-              rcases Int.mul_eq_zero.mp h0 with h0 | h0
-              · exact hne h0
-              · omega
+            · exact hs'0
             · exact hb
             · simp only [Nat.add_sub_cancel]; omega
         · rw [hm]; simp
@@ -961,17 +1062,44 @@ theorem scaledToChars_contract (T : IntTy) (e : Int) (radix len : Nat) (rep : In
 def SigOK (S : IntTy) (neg : Bool) (sig : Int) : Prop :=
   S.lowest ≤ sig ∧ sig ≤ S.max ∧ (if neg = true then sig < 0 else 0 < sig)
 
+theorem sigOK_ne_zero {S : IntTy} {neg : Bool} {sig : Int} (h : SigOK S neg sig) : ¬ (sig = 0) := by
+  obtain ⟨_, _, h3⟩ := h
+  cases neg <;> simp at h3 <;> omega
+
 theorem lowest_signed (S : IntTy) (hs : S.signed = true) : S.lowest = -S.max - 1 := by
   simp only [IntTy.lowest, IntTy.max, hs, if_true]; omega
+
+/-- either a two's complement signed type, or an unsigned one -/
+theorem lowest_cases (S : IntTy) : S.lowest = -S.max - 1 ∨ (S.lowest = 0 ∧ S.signed = false) := by
+  cases hs : S.signed with
+  | true => left; simp only [IntTy.lowest, IntTy.max, hs, if_true]; omega
+  | false => right; simp [IntTy.lowest, hs]
+
+theorem max_ge_127_any (S : IntTy) (h8 : 8 ≤ S.bits) : 127 ≤ S.max := by
+  have h : (2 : Int) ^ 7 ≤ 2 ^ (S.bits - 1) := two_pow_le (by omega)
+  have h' : (2 : Int) ^ 7 ≤ 2 ^ S.bits := two_pow_le (by omega)
+  have : (2 : Int) ^ 7 = 128 := by decide
+  unfold IntTy.max
+  split <;> omega
+
+/-- magnitude bound of any type -/
+theorem natAbs_le_of_range_any {S : IntTy} {v : Int} (h1 : S.lowest ≤ v) (h2 : v ≤ S.max) :
+    v.natAbs ≤ 2 ^ S.bits := by
+  have hp : (0 : Int) < 2 ^ (S.bits - 1) := Int.pow_pos (by omega)
+  have hq : (2 : Int) ^ (S.bits - 1) ≤ 2 ^ S.bits := two_pow_le (by omega)
+  have : (v.natAbs : Int) ≤ 2 ^ S.bits := by
+    unfold IntTy.lowest at h1; unfold IntTy.max at h2
+    cases hs : S.signed <;> simp [hs] at h1 h2 <;> omega
+  exact_mod_cast this
 
 theorem mulS_ok {S : IntTy} (hb : 1 ≤ S.bits) {a : Int} {k : Nat} (h : S.InRange (a * k)) :
     mulS S a k = .ok (a * k) := by
   unfold mulS; rw [arith_ok hb h]
 
-theorem step_mul10 (S : IntTy) (hs : S.signed = true) (neg : Bool) (sig : Int)
+theorem step_mul10 (S : IntTy) (neg : Bool) (sig : Int)
     (h : SigOK S neg sig) (ho : oobSig S neg sig = false) :
     S.InRange (sig * (10 : Nat)) ∧ SigOK S neg (sig * (10 : Nat)) := by
-  have hl := lowest_signed S hs
+  have hl := lowest_cases S
   obtain ⟨h1, h2, h3⟩ := h
   unfold oobSig at ho
   unfold SigOK IntTy.InRange
@@ -985,11 +1113,11 @@ theorem step_mul10 (S : IntTy) (hs : S.signed = true) (neg : Bool) (sig : Int)
     have : ((10 : Nat) : Int) = 10 := rfl
     omega
 
-theorem step_mulR (S : IntTy) (hs : S.signed = true) (neg : Bool) (sig : Int) (R : Nat)
+theorem step_mulR (S : IntTy) (neg : Bool) (sig : Int) (R : Nat)
     (hR1 : 1 ≤ R) (hR : R ≤ 10)
     (h : SigOK S neg sig) (ho : oobSig S neg sig = false) :
     S.InRange (sig * R) ∧ SigOK S neg (sig * R) := by
-  have hl := lowest_signed S hs
+  have hl := lowest_cases S
   obtain ⟨h1, h2, h3⟩ := h
   have hRi : (R : Int) ≤ 10 := by exact_mod_cast hR
   have hRi1 : (1 : Int) ≤ R := by exact_mod_cast hR1
@@ -1046,17 +1174,19 @@ theorem oob_big (S : IntTy) (hM : 127 ≤ S.max) (neg : Bool) (sig : Int) (h : S
   | false => simp at ho h3; omega
 
 
-theorem sigOK_bounds (S : IntTy) (hs : S.signed = true) : S.lowest ≤ 0 ∧ 0 ≤ S.max := by
+theorem sigOK_bounds (S : IntTy) : S.lowest ≤ 0 ∧ 0 ≤ S.max := by
   have hp : (0 : Int) < 2 ^ (S.bits - 1) := Int.pow_pos (by omega)
-  simp only [IntTy.lowest, IntTy.max, hs, if_true]; omega
+  have hq : (0 : Int) < 2 ^ S.bits := Int.pow_pos (by omega)
+  unfold IntTy.lowest IntTy.max
+  cases S.signed <;> simp <;> omega
 
-theorem descaleNeg_ok (S : IntTy) (hs : S.signed = true) (h8 : 8 ≤ S.bits) (neg : Bool) (R : Nat)
-    (hR2 : 2 ≤ R) (hR : R ≤ 10) (B : Nat) (hB : B = 2 ^ (S.bits - 1)) :
+theorem descaleNeg_ok (S : IntTy) (h8 : 8 ≤ S.bits) (neg : Bool) (R : Nat)
+    (hR2 : 2 ≤ R) (hR : R ≤ 10) (B : Nat) (hB : B = 2 ^ S.bits) :
     ∀ fuel sig x ie k, SigOK S neg sig →
       ie * (B + 2) + (B - sig.natAbs) + 1 ≤ fuel →
       ∃ d, descaleNeg S neg R fuel sig x ie k = .ok d ∧ SigOK S neg d.sig := by
-  have hM := max_ge_127 S hs h8
-  obtain ⟨hl0, hm0⟩ := sigOK_bounds S hs
+  have hM := max_ge_127_any S h8
+  obtain ⟨hl0, hm0⟩ := sigOK_bounds S
   intro fuel
   induction fuel with
   | zero => intro sig x ie k _ h; omega
@@ -1067,10 +1197,10 @@ theorem descaleNeg_ok (S : IntTy) (hs : S.signed = true) (h8 : 8 ≤ S.bits) (ne
     | succ ie =>
       rw [Nat.succ_mul] at h
       by_cases hc : sig.tmod R ≠ 0 ∧ oobSig S neg sig = false
-      · obtain ⟨hin, hok'⟩ := step_mul10 S hs neg sig hok hc.2
+      · obtain ⟨hin, hok'⟩ := step_mul10 S neg sig hok hc.2
         simp only [descaleNeg, hc, and_self, if_true, ne_eq, not_false_eq_true, mulS_ok (by omega) hin]
         apply ih _ _ _ _ hok'
-        have hb := natAbs_le_of_range hs hok'.1 hok'.2.1
+        have hb := natAbs_le_of_range_any hok'.1 hok'.2.1
         rw [← hB] at hb
         have hne : sig ≠ 0 := by
           intro h0; subst h0; simp at hc
@@ -1093,13 +1223,13 @@ theorem descaleNeg_ok (S : IntTy) (hs : S.signed = true) (h8 : 8 ≤ S.bits) (ne
         apply ih _ _ _ _ (step_div S hl0 hm0 neg sig R hR2 hok hbig)
         omega
 
-theorem descalePos_ok (S : IntTy) (hs : S.signed = true) (h8 : 8 ≤ S.bits) (neg : Bool) (R : Nat)
-    (hR1 : 1 ≤ R) (hR : R ≤ 10) (B : Nat) (hB : B = 2 ^ (S.bits - 1)) :
+theorem descalePos_ok (S : IntTy) (h8 : 8 ≤ S.bits) (neg : Bool) (R : Nat)
+    (hR1 : 1 ≤ R) (hR : R ≤ 10) (B : Nat) (hB : B = 2 ^ S.bits) :
     ∀ fuel sig x ie k, SigOK S neg sig →
       ie * (B + 2) + sig.natAbs + 1 ≤ fuel →
       ∃ d, descalePos S neg R fuel sig x ie k = .ok d ∧ SigOK S neg d.sig := by
-  have hM := max_ge_127 S hs h8
-  obtain ⟨hl0, hm0⟩ := sigOK_bounds S hs
+  have hM := max_ge_127_any S h8
+  obtain ⟨hl0, hm0⟩ := sigOK_bounds S
   intro fuel
   induction fuel with
   | zero => intro sig x ie k _ h; omega
@@ -1128,9 +1258,9 @@ theorem descalePos_ok (S : IntTy) (hs : S.signed = true) (h8 : 8 ≤ S.bits) (ne
           cases hoo : oobSig S neg sig with
           | false => rfl
           | true => exact absurd (Or.inr hoo) h2
-        obtain ⟨hin, hok'⟩ := step_mulR S hs neg sig R hR1 hR hok ho
-        simp only [mulS_ok (by omega) hin]
-        have hb := natAbs_le_of_range hs hok'.1 hok'.2.1
+        obtain ⟨hin, hok'⟩ := step_mulR S neg sig R hR1 hR hok ho
+        simp only [mulS_ok (by omega) hin, sigOK_ne_zero hok', if_false]
+        have hb := natAbs_le_of_range_any hok'.1 hok'.2.1
         rw [← hB] at hb
         cases ie with
         | zero => exact absurd rfl hie
@@ -1141,7 +1271,7 @@ theorem descalePos_ok (S : IntTy) (hs : S.signed = true) (h8 : 8 ≤ S.bits) (ne
 
 /-- the repaired `descale` returns a non-zero in-range significand of the input's sign for every non-zero
 input: no overflow (`ub`), no endless loop -/
-theorem descale_ok (S : IntTy) (hs : S.signed = true) (h8 : 8 ≤ S.bits) (input e : Int) (R : Nat)
+theorem descale_ok (S : IntTy) (h8 : 8 ≤ S.bits) (input e : Int) (R : Nat)
     (hR2 : 2 ≤ R) (hR : R ≤ 10) (hr : S.InRange input) (h0 : input ≠ 0) :
     ∃ d, descale S input e R = .ok d ∧ SigOK S (decide (input < 0)) d.sig := by
   unfold descale
@@ -1155,13 +1285,13 @@ theorem descale_ok (S : IntTy) (hs : S.signed = true) (h8 : 8 ≤ S.bits) (input
     Nat.mul_le_mul_left _ (by omega)
   have hfuel : descaleFuel S e.natAbs = e.natAbs * (2 ^ S.bits + 2) + (2 ^ S.bits + 2) + 1 := by
     unfold descaleFuel; rw [Nat.succ_mul]
-  have hle := natAbs_le_of_range hs hr.1 hr.2
+  have hle := natAbs_le_of_range_any hr.1 hr.2
   by_cases hn : e < 0
   · simp only [hn, if_true]
-    apply descaleNeg_ok S hs h8 _ R hR2 hR (2 ^ (S.bits - 1)) rfl _ _ _ _ _ hok
+    apply descaleNeg_ok S h8 _ R hR2 hR (2 ^ S.bits) rfl _ _ _ _ _ hok
     rw [hfuel]; omega
   · simp only [hn, if_false]
-    apply descalePos_ok S hs h8 _ R (by omega) hR (2 ^ (S.bits - 1)) rfl _ _ _ _ _ hok
+    apply descalePos_ok S h8 _ R (by omega) hR (2 ^ S.bits) rfl _ _ _ _ _ hok
     rw [hfuel]; omega
 
 
@@ -1176,9 +1306,10 @@ length, when the significand type is signed (`int64_t` for every rep of at most 
 rep): the call returns normally and meets the C13 contract — or the descaled significand is the most
 negative value of its type (the one open finding) -/
 theorem scaledToChars_stays_inside (T : IntTy) (e : Int) (radix len : Nat) (rep : Int)
-    (hS : (sigTy T).signed = true) (hr : (sigTy T).InRange rep) (hR2 : 2 ≤ radix) (hR : radix ≤ 10) :
+    (hr : (sigTy T).InRange rep) (hR2 : 2 ≤ radix) (hR : radix ≤ 10) :
     (∃ r, scaledToChars T e radix len rep = .ok r ∧ Contract len r) ∨
-    scaledToChars T e radix len rep = .unreachable "assert: most negative value" := by
+    ((sigTy T).signed = true ∧
+      scaledToChars T e radix len rep = .unreachable "assert: most negative value") := by
   by_cases hlen : len = 0
   · left
     subst hlen
@@ -1202,17 +1333,42 @@ theorem scaledToChars_stays_inside (T : IntTy) (e : Int) (radix len : Nat) (rep 
           have : ¬ (0 = i) := by omega
           simp [this, List.getElem?_replicate, h2]
       · intro h; simp at h
-    · obtain ⟨d, hd, hok⟩ := descale_ok (sigTy T) hS (sigTy_bits T) rep e radix hR2 hR hr hrep
+    · obtain ⟨d, hd, hok⟩ := descale_ok (sigTy T) (sigTy_bits T) rep e radix hR2 hR hr hrep
       have h0 : d.sig ≠ 0 := by
         obtain ⟨_, _, h3⟩ := hok
         by_cases hn : rep < 0 <;> simp [hn] at h3 <;> omega
       by_cases hmn : (sigTy T).signed = true ∧ d.sig < -(sigTy T).max
       · right
+        refine ⟨hmn.1, ?_⟩
         unfold scaledToChars scaledToCharsWith
         simp only [hlen, hrep, if_false, hd, h0, hmn, and_self, if_true]
       · left
         exact scaledToChars_contract T e radix len rep d hlen hrep hd h0 hmn
 
+
+/-- for an UNSIGNED significand type (`uint64_t`, `unsigned __int128`, wider unsigned reps) there is no exception
+at all: every value, exponent, radix 2…10 and buffer length meets the contract -/
+theorem scaledToChars_stays_inside_unsigned (T : IntTy) (e : Int) (radix len : Nat) (rep : Int)
+    (hS : (sigTy T).signed = false) (hr : (sigTy T).InRange rep) (hR2 : 2 ≤ radix) (hR : radix ≤ 10) :
+    ∃ r, scaledToChars T e radix len rep = .ok r ∧ Contract len r := by
+  rcases scaledToChars_stays_inside T e radix len rep hr hR2 hR with h | h
+  · exact h
+  · rw [hS] at h; exact absurd h.1 (by decide)
+
+/-- an unsigned significand type is the rep type itself -/
+theorem sigTy_unsigned (T : IntTy) (hS : (sigTy T).signed = false) : sigTy T = T := by
+  unfold sigTy at hS ⊢
+  split
+  · rfl
+  · rename_i h; rw [if_neg h] at hS; exact absurd hS (by decide)
+
+/-- termination for every significand type, signed or not (radix 2…10) -/
+theorem descale_terminates_any (S : IntTy) (h8 : 8 ≤ S.bits) (input e : Int) (R : Nat)
+    (hR2 : 2 ≤ R) (hR : R ≤ 10) (hr : S.InRange input) : descale S input e R ≠ .diverges := by
+  by_cases h0 : input = 0
+  · simp [descale, h0]
+  · obtain ⟨d, hd, _⟩ := descale_ok S h8 input e R hR2 hR hr h0
+    rw [hd]; intro h; cases h
 
 /-! ### the text left in the buffer by the integer routine -/
 
@@ -1374,7 +1530,7 @@ theorem lossy_rem_small (S : IntTy) (neg : Bool) (sig : Int) (R : Nat) (hR1 : 1 
 /-- value invariant of the negative-exponent loop, relative to the state it is entered with:
 `m` multiplications by ten and `j` lossy divisions later, `|d.sig|·R^ie ≤ |sig|·10^m`, and the shortfall is at most
 `j · 10(R−1)/max` of the entry value -/
-theorem descaleNeg_value (S : IntTy) (hs : S.signed = true) (h8 : 8 ≤ S.bits) (neg : Bool) (R : Nat)
+theorem descaleNeg_value (S : IntTy) (h8 : 8 ≤ S.bits) (neg : Bool) (R : Nat)
     (hR2 : 2 ≤ R) (hR : R ≤ 10) :
     ∀ fuel sig x ie k d, SigOK S neg sig → descaleNeg S neg R fuel sig x ie k = .ok d →
       ∃ m j : Nat, d.exp = x - m ∧ d.lossy = k + j ∧
@@ -1382,8 +1538,8 @@ theorem descaleNeg_value (S : IntTy) (hs : S.signed = true) (h8 : 8 ≤ S.bits) 
         sig.natAbs * 10 ^ m * S.max.toNat ≤
           d.sig.natAbs * R ^ ie * S.max.toNat + sig.natAbs * 10 ^ m * (j * (10 * (R - 1))) ∧
         j ≤ ie := by
-  have hM := max_ge_127 S hs h8
-  obtain ⟨hl0, hm0⟩ := sigOK_bounds S hs
+  have hM := max_ge_127_any S h8
+  obtain ⟨hl0, hm0⟩ := sigOK_bounds S
   intro fuel
   induction fuel with
   | zero => intro sig x ie k d _ h; simp [descaleNeg] at h
@@ -1396,7 +1552,7 @@ theorem descaleNeg_value (S : IntTy) (hs : S.signed = true) (h8 : 8 ≤ S.bits) 
       exact ⟨0, 0, by simp, by simp, by simp, by simp, Nat.le_refl _⟩
     | succ ie =>
       by_cases hc : sig.tmod R ≠ 0 ∧ oobSig S neg sig = false
-      · obtain ⟨hin, hok'⟩ := step_mul10 S hs neg sig hok hc.2
+      · obtain ⟨hin, hok'⟩ := step_mul10 S neg sig hok hc.2
         simp only [descaleNeg, hc, and_self, if_true, ne_eq, not_false_eq_true, mulS_ok (by omega) hin] at h
         obtain ⟨m, j, e1, e2, e3, e4, e5⟩ := ih _ _ _ _ _ hok' h
         have hn : (sig * ((10 : Nat) : Int)).natAbs = sig.natAbs * 10 := by
@@ -1436,15 +1592,15 @@ theorem descaleNeg_value (S : IntTy) (hs : S.signed = true) (h8 : 8 ≤ S.bits) 
         · rw [Nat.pow_succ]; exact g2
 
 /-- value invariant of the non-negative-exponent loop, relative to the state it is entered with -/
-theorem descalePos_value (S : IntTy) (hs : S.signed = true) (h8 : 8 ≤ S.bits) (neg : Bool) (R : Nat)
+theorem descalePos_value (S : IntTy) (h8 : 8 ≤ S.bits) (neg : Bool) (R : Nat)
     (hR1 : 1 ≤ R) (hR : R ≤ 10) :
     ∀ fuel sig x ie k d, SigOK S neg sig → descalePos S neg R fuel sig x ie k = .ok d →
       ∃ m j : Nat, d.exp = x + m ∧ d.lossy = k + j ∧
         d.sig.natAbs * 10 ^ m ≤ sig.natAbs * R ^ ie ∧
         sig.natAbs * R ^ ie * S.max.toNat ≤
           d.sig.natAbs * 10 ^ m * S.max.toNat + sig.natAbs * R ^ ie * (j * 90) := by
-  have hM := max_ge_127 S hs h8
-  obtain ⟨hl0, hm0⟩ := sigOK_bounds S hs
+  have hM := max_ge_127_any S h8
+  obtain ⟨hl0, hm0⟩ := sigOK_bounds S
   intro fuel
   induction fuel with
   | zero => intro sig x ie k d _ h; simp [descalePos] at h
@@ -1492,8 +1648,8 @@ theorem descalePos_value (S : IntTy) (hs : S.signed = true) (h8 : 8 ≤ S.bits) 
           cases hoo : oobSig S neg sig with
           | false => rfl
           | true => exact absurd (Or.inr hoo) h2
-        obtain ⟨hin, hok'⟩ := step_mulR S hs neg sig R hR1 hR hok ho
-        simp only [mulS_ok (by omega) hin] at h
+        obtain ⟨hin, hok'⟩ := step_mulR S neg sig R hR1 hR hok ho
+        simp only [mulS_ok (by omega) hin, sigOK_ne_zero hok', if_false] at h
         cases ie with
         | zero => exact absurd rfl hie
         | succ i =>
@@ -1515,7 +1671,7 @@ theorem lossUnit_le (R : Nat) (e : Int) (hR : R ≤ 10) : lossUnit R e ≤ 90 :=
 /-- **value invariant of `descale`** (signed significand type, every input, exponent, radix 2…10):
 with `num/den = |input|·R^e`, `s = |d.sig|`, `x = d.exp`:
 `s·10^x ≤ num/den` and `num/den − s·10^x ≤ (num/den) · lossy · lossUnit / max`, cross-multiplied in ℕ -/
-theorem descale_value (S : IntTy) (hs : S.signed = true) (h8 : 8 ≤ S.bits) (input e : Int) (R : Nat)
+theorem descale_value (S : IntTy) (h8 : 8 ≤ S.bits) (input e : Int) (R : Nat)
     (hR2 : 2 ≤ R) (hR : R ≤ 10) (hr : S.InRange input) (h0 : input ≠ 0) (d : Desc)
     (hd : descale S input e R = .ok d) :
     d.sig.natAbs * 10 ^ d.exp.toNat * (exactFrac input.natAbs R e).2 ≤
@@ -1531,7 +1687,7 @@ theorem descale_value (S : IntTy) (hs : S.signed = true) (h8 : 8 ≤ S.bits) (in
     by_cases hn : input < 0 <;> simp [hn]; omega
   by_cases hn : e < 0
   · simp only [hn, if_true] at hd
-    obtain ⟨m, j, e1, e2, e3, e4, _⟩ := descaleNeg_value S hs h8 _ R hR2 hR _ _ _ _ _ d hok hd
+    obtain ⟨m, j, e1, e2, e3, e4, _⟩ := descaleNeg_value S h8 _ R hR2 hR _ _ _ _ _ d hok hd
     have hx1 : d.exp.toNat = 0 := by omega
     have hx2 : (-d.exp).toNat = m := by omega
     have hge : ¬ e ≥ 0 := by omega
@@ -1540,7 +1696,7 @@ theorem descale_value (S : IntTy) (hs : S.signed = true) (h8 : 8 ≤ S.bits) (in
     simp only [exactFrac, hge, if_false, hx1, hx2, lossUnit, hn, if_true, hie, hj, Nat.pow_zero, Nat.mul_one]
     exact ⟨e3, e4⟩
   · simp only [hn, if_false] at hd
-    obtain ⟨m, j, e1, e2, e3, e4⟩ := descalePos_value S hs h8 _ R (by omega) hR _ _ _ _ _ d hok hd
+    obtain ⟨m, j, e1, e2, e3, e4⟩ := descalePos_value S h8 _ R (by omega) hR _ _ _ _ _ d hok hd
     have hx1 : d.exp.toNat = m := by omega
     have hx2 : (-d.exp).toNat = 0 := by omega
     have hge : e ≥ 0 := by omega
@@ -1551,7 +1707,7 @@ theorem descale_value (S : IntTy) (hs : S.signed = true) (h8 : 8 ≤ S.bits) (in
 
 
 /-- for a negative exponent at most `|e|` divisions happen at all, so at most `|e|` are lossy -/
-theorem descale_lossy_le (S : IntTy) (hs : S.signed = true) (h8 : 8 ≤ S.bits) (input e : Int) (R : Nat)
+theorem descale_lossy_le (S : IntTy) (h8 : 8 ≤ S.bits) (input e : Int) (R : Nat)
     (hR2 : 2 ≤ R) (hR : R ≤ 10) (hr : S.InRange input) (h0 : input ≠ 0) (he : e < 0) (d : Desc)
     (hd : descale S input e R = .ok d) : d.lossy ≤ e.natAbs := by
   unfold descale at hd
@@ -1561,7 +1717,7 @@ theorem descale_lossy_le (S : IntTy) (hs : S.signed = true) (h8 : 8 ≤ S.bits) 
     refine ⟨hr.1, hr.2, ?_⟩
     by_cases hn : input < 0 <;> simp [hn]; omega
   simp only [he, if_true] at hd
-  obtain ⟨m, j, _, e2, _, _, e5⟩ := descaleNeg_value S hs h8 _ R hR2 hR _ _ _ _ _ d hok hd
+  obtain ⟨m, j, _, e2, _, _, e5⟩ := descaleNeg_value S h8 _ R hR2 hR _ _ _ _ _ d hok hd
   omega
 
 theorem two_pow_mod_five (n : Nat) : ((2 : Int) ^ n) % 5 ≠ 0 := by
@@ -1570,16 +1726,21 @@ theorem two_pow_mod_five (n : Nat) : ((2 : Int) ^ n) % 5 ≠ 0 := by
   | succ k ih => rw [Int.pow_succ]; omega
 
 /-- after a division by ten the significand is back inside the headroom -/
-theorem not_oob_after_div (S : IntTy) (hs : S.signed = true) (neg : Bool) (sig : Int) (h : SigOK S neg sig) :
+theorem not_oob_after_div (S : IntTy) (neg : Bool) (sig : Int) (h : SigOK S neg sig) :
     oobSig S neg (sig.tdiv 10) = false := by
   obtain ⟨h1, h2, h3⟩ := h
-  have hl := lowest_signed S hs
-  have hp := two_pow_mod_five (S.bits - 1)
-  have hmax : S.max = 2 ^ (S.bits - 1) - 1 := by simp only [IntTy.max, hs, if_true]
   unfold oobSig
   cases neg with
   | true =>
     simp only [if_true, decide_eq_false_iff_not] at h3 ⊢
+    -- only a signed type has negative values
+    have hs : S.signed = true := by
+      cases hs : S.signed with
+      | true => rfl
+      | false => simp [IntTy.lowest, hs] at h1; omega
+    have hl := lowest_signed S hs
+    have hp := two_pow_mod_five (S.bits - 1)
+    have hmax : S.max = 2 ^ (S.bits - 1) - 1 := by simp only [IntTy.max, hs, if_true]
     have e1 : sig.tdiv 10 = -((-sig).tdiv 10) := by rw [Int.neg_tdiv]; omega
     have e2 : (-sig).tdiv 10 = (-sig) / 10 := Int.tdiv_eq_ediv_of_nonneg (by omega)
     rw [e1, e2]
@@ -1593,12 +1754,12 @@ theorem not_oob_after_div (S : IntTy) (hs : S.signed = true) (neg : Bool) (sig :
 
 /-- a lossy division needs the significand out of headroom, and only a multiplication by the input radix takes it
 there: at most one lossy division per unit of the input exponent, plus one at the start -/
-theorem descalePos_lossy_le (S : IntTy) (hs : S.signed = true) (h8 : 8 ≤ S.bits) (neg : Bool) (R : Nat)
+theorem descalePos_lossy_le (S : IntTy) (h8 : 8 ≤ S.bits) (neg : Bool) (R : Nat)
     (hR1 : 1 ≤ R) (hR : R ≤ 10) :
     ∀ fuel sig x ie k d, SigOK S neg sig → descalePos S neg R fuel sig x ie k = .ok d →
       d.lossy ≤ k + ie + (if oobSig S neg sig = true then 1 else 0) := by
-  have hM := max_ge_127 S hs h8
-  obtain ⟨hl0, hm0⟩ := sigOK_bounds S hs
+  have hM := max_ge_127_any S h8
+  obtain ⟨hl0, hm0⟩ := sigOK_bounds S
   intro fuel
   induction fuel with
   | zero => intro sig x ie k d _ h; simp [descalePos] at h
@@ -1615,7 +1776,7 @@ theorem descalePos_lossy_le (S : IntTy) (hs : S.signed = true) (h8 : 8 ≤ S.bit
           · right; have := oob_big S hM neg sig hok h2; omega
         have hok' : SigOK S neg (sig.tdiv 10) := step_div S hl0 hm0 neg sig 10 (by omega) hok hbig
         have := ih _ _ _ _ d hok' h
-        rw [not_oob_after_div S hs neg sig hok] at this
+        rw [not_oob_after_div S neg sig hok] at this
         by_cases ht : sig.tmod 10 = 0
         · rw [if_neg (by omega)] at this
           simp only [Bool.false_eq_true, if_false] at this
@@ -1635,8 +1796,8 @@ theorem descalePos_lossy_le (S : IntTy) (hs : S.signed = true) (h8 : 8 ≤ S.bit
           cases hoo : oobSig S neg sig with
           | false => rfl
           | true => exact absurd (Or.inr hoo) h2
-        obtain ⟨hin, hok'⟩ := step_mulR S hs neg sig R hR1 hR hok ho
-        simp only [mulS_ok (by omega) hin] at h
+        obtain ⟨hin, hok'⟩ := step_mulR S neg sig R hR1 hR hok ho
+        simp only [mulS_ok (by omega) hin, sigOK_ne_zero hok', if_false] at h
         cases ie with
         | zero => exact absurd rfl hie
         | succ i =>
@@ -1646,11 +1807,11 @@ theorem descalePos_lossy_le (S : IntTy) (hs : S.signed = true) (h8 : 8 ≤ S.bit
           omega
 
 /-- the number of lossy divisions is bounded by the input exponent: `|e|` for negative, `e + 1` for non-negative -/
-theorem descale_lossy_le_succ (S : IntTy) (hs : S.signed = true) (h8 : 8 ≤ S.bits) (input e : Int) (R : Nat)
+theorem descale_lossy_le_succ (S : IntTy) (h8 : 8 ≤ S.bits) (input e : Int) (R : Nat)
     (hR2 : 2 ≤ R) (hR : R ≤ 10) (hr : S.InRange input) (h0 : input ≠ 0) (d : Desc)
     (hd : descale S input e R = .ok d) : d.lossy ≤ e.natAbs + 1 := by
   by_cases he : e < 0
-  · have := descale_lossy_le S hs h8 input e R hR2 hR hr h0 he d hd
+  · have := descale_lossy_le S h8 input e R hR2 hR hr h0 he d hd
     omega
   · unfold descale at hd
     simp only [h0, if_false] at hd
@@ -1659,7 +1820,7 @@ theorem descale_lossy_le_succ (S : IntTy) (hs : S.signed = true) (h8 : 8 ≤ S.b
       refine ⟨hr.1, hr.2, ?_⟩
       by_cases hn : input < 0 <;> simp [hn]; omega
     simp only [he, if_false] at hd
-    have := descalePos_lossy_le S hs h8 _ R (by omega) hR _ _ _ _ _ d hok hd
+    have := descalePos_lossy_le S h8 _ R (by omega) hR _ _ _ _ _ d hok hd
     have hle : (if oobSig S (decide (input < 0)) input = true then 1 else 0) ≤ 1 := by split <;> omega
     omega
 
@@ -2281,7 +2442,7 @@ characters `[first, p)`, read by the independent reader, are a decimal `±m·10^
 (`Dec.within`, the oracle's comparison); it is exactly the value when `descale` took no lossy division and one of
 the two complete notations fits the buffer -/
 theorem scaledToChars_denotes (T : IntTy) (e : Int) (radix len : Nat) (rep : Int)
-    (hS : (sigTy T).signed = true) (hr : (sigTy T).InRange rep) (hR2 : 2 ≤ radix) (hR : radix ≤ 10)
+    (hr : (sigTy T).InRange rep) (hR2 : 2 ≤ radix) (hR : radix ≤ 10)
     (hrep : rep ≠ 0) (r : TCR) (hrun : scaledToChars T e radix len rep = .ok r) (hok : r.ok = true) :
     ∃ dsc d, descale (sigTy T) rep e radix = .ok dsc ∧ decimalValue r.text = some d ∧
       d.neg = decide (rep < 0) ∧
@@ -2295,13 +2456,13 @@ theorem scaledToChars_denotes (T : IntTy) (e : Int) (radix len : Nat) (rep : Int
   · subst hlen
     simp [scaledToChars, scaledToCharsWith] at hrun
     subst hrun; simp at hok
-  obtain ⟨dsc, hd, hsok⟩ := descale_ok (sigTy T) hS h8 rep e radix hR2 hR hr hrep
+  obtain ⟨dsc, hd, hsok⟩ := descale_ok (sigTy T) h8 rep e radix hR2 hR hr hrep
   have hsign : (rep < 0 ↔ dsc.sig < 0) ∧ dsc.sig ≠ 0 := by
     obtain ⟨_, _, h3⟩ := hsok
     by_cases hn : rep < 0 <;> simp [hn] at h3 ⊢ <;> omega
-  obtain ⟨hv1, hv2⟩ := descale_value (sigTy T) hS h8 rep e radix hR2 hR hr hrep dsc hd
+  obtain ⟨hv1, hv2⟩ := descale_value (sigTy T) h8 rep e radix hR2 hR hr hrep dsc hd
   have hM : 0 < (sigTy T).max.toNat := by
-    have := max_ge_127 (sigTy T) hS h8; omega
+    have := max_ge_127_any (sigTy T) h8; omega
   have hden := exactFrac_den_pos rep.natAbs radix e (by omega)
   have hpos : 0 < len := Nat.pos_of_ne_zero hlen
   have h0 : 0 < dsc.sig.natAbs := Int.natAbs_pos.mpr hsign.2
@@ -2374,12 +2535,12 @@ theorem losslessInv_init (a ie : Nat) : LosslessInv (a * 5 ^ ie) a ie := by
     omega
   · exact Nat.le_refl _
 
-theorem descaleNeg_lossless (S : IntTy) (hs : S.signed = true) (h8 : 8 ≤ S.bits) (neg : Bool) (B : Nat)
+theorem descaleNeg_lossless (S : IntTy) (h8 : 8 ≤ S.bits) (neg : Bool) (B : Nat)
     (hB : 10 * B ≤ S.max.toNat) :
     ∀ fuel sig x ie k d, SigOK S neg sig → LosslessInv B sig.natAbs ie →
       descaleNeg S neg 2 fuel sig x ie k = .ok d → d.lossy = k := by
-  have hM := max_ge_127 S hs h8
-  obtain ⟨hl0, hm0⟩ := sigOK_bounds S hs
+  have hM := max_ge_127_any S h8
+  obtain ⟨hl0, hm0⟩ := sigOK_bounds S
   intro fuel
   induction fuel with
   | zero => intro sig x ie k d _ _ h; simp [descaleNeg] at h
@@ -2392,7 +2553,7 @@ theorem descaleNeg_lossless (S : IntTy) (hs : S.signed = true) (h8 : 8 ≤ S.bit
       have hmod : (sig.tmod ((2 : Nat) : Int)).natAbs = sig.natAbs % 2 := natAbs_tmod_nat sig 2
       have hdiv : (sig.tdiv ((2 : Nat) : Int)).natAbs = sig.natAbs / 2 := natAbs_tdiv_nat sig 2
       by_cases hc : sig.tmod ((2 : Nat) : Int) ≠ 0 ∧ oobSig S neg sig = false
-      · obtain ⟨hin, hok'⟩ := step_mul10 S hs neg sig hok hc.2
+      · obtain ⟨hin, hok'⟩ := step_mul10 S neg sig hok hc.2
         simp only [descaleNeg, hc, and_self, if_true, ne_eq, not_false_eq_true, mulS_ok (by omega) hin] at h
         apply ih _ _ _ _ _ hok' _ h
         have hn : (sig * ((10 : Nat) : Int)).natAbs = sig.natAbs * 10 := by
@@ -2445,7 +2606,7 @@ theorem descaleNeg_lossless (S : IntTy) (hs : S.signed = true) (h8 : 8 ≤ S.bit
 /-- **no lossy division for short binary fractions**: for a negative exponent and input radix 2, when
 `|input|·5^|e|` — the significand of the exact expansion — is at most `max/10` (18 digits for `int64_t`),
 `descale` is lossless, so (`descale_value`) `s·10^x = |input|·2^e` exactly -/
-theorem descale_lossless_binary (S : IntTy) (hs : S.signed = true) (h8 : 8 ≤ S.bits) (input e : Int)
+theorem descale_lossless_binary (S : IntTy) (h8 : 8 ≤ S.bits) (input e : Int)
     (hr : S.InRange input) (h0 : input ≠ 0) (he : e < 0)
     (hB : 10 * (input.natAbs * 5 ^ e.natAbs) ≤ S.max.toNat) (d : Desc)
     (hd : descale S input e 2 = .ok d) : d.lossy = 0 := by
@@ -2456,14 +2617,14 @@ theorem descale_lossless_binary (S : IntTy) (hs : S.signed = true) (h8 : 8 ≤ S
     refine ⟨hr.1, hr.2, ?_⟩
     by_cases hn : input < 0 <;> simp [hn]; omega
   simp only [he, if_true] at hd
-  exact descaleNeg_lossless S hs h8 _ _ hB _ _ _ _ _ d hok (losslessInv_init _ _) hd
+  exact descaleNeg_lossless S h8 _ _ hB _ _ _ _ _ d hok (losslessInv_init _ _) hd
 
-theorem descalePos_lossless (S : IntTy) (hs : S.signed = true) (h8 : 8 ≤ S.bits) (neg : Bool) (R : Nat)
+theorem descalePos_lossless (S : IntTy) (h8 : 8 ≤ S.bits) (neg : Bool) (R : Nat)
     (hR1 : 1 ≤ R) (hR : R ≤ 10) (B : Nat) (hB : 10 * B ≤ S.max.toNat) :
     ∀ fuel sig x ie k d, SigOK S neg sig → sig.natAbs * R ^ ie ≤ B →
       descalePos S neg R fuel sig x ie k = .ok d → d.lossy = k := by
-  have hM := max_ge_127 S hs h8
-  obtain ⟨hl0, hm0⟩ := sigOK_bounds S hs
+  have hM := max_ge_127_any S h8
+  obtain ⟨hl0, hm0⟩ := sigOK_bounds S
   intro fuel
   induction fuel with
   | zero => intro sig x ie k d _ _ h; simp [descalePos] at h
@@ -2499,8 +2660,8 @@ theorem descalePos_lossless (S : IntTy) (hs : S.signed = true) (h8 : 8 ≤ S.bit
       · simp only [descalePos, h1, h2, if_false] at h
         have htm : sig.tmod 10 ≠ 0 := fun h0 => h2 (Or.inl h0)
         have hie : ie ≠ 0 := fun h0 => h1 ⟨h0, htm⟩
-        obtain ⟨hin, hok'⟩ := step_mulR S hs neg sig R hR1 hR hok hno
-        simp only [mulS_ok (by omega) hin] at h
+        obtain ⟨hin, hok'⟩ := step_mulR S neg sig R hR1 hR hok hno
+        simp only [mulS_ok (by omega) hin, sigOK_ne_zero hok', if_false] at h
         cases ie with
         | zero => exact absurd rfl hie
         | succ i =>
@@ -2514,7 +2675,7 @@ theorem descalePos_lossless (S : IntTy) (hs : S.signed = true) (h8 : 8 ≤ S.bit
 
 /-- **no lossy division for small integers**: for a non-negative exponent, when `|input|·R^e ≤ max/10`, `descale`
 is lossless -/
-theorem descale_lossless_small (S : IntTy) (hs : S.signed = true) (h8 : 8 ≤ S.bits) (input e : Int) (R : Nat)
+theorem descale_lossless_small (S : IntTy) (h8 : 8 ≤ S.bits) (input e : Int) (R : Nat)
     (hR1 : 1 ≤ R) (hR : R ≤ 10) (hr : S.InRange input) (h0 : input ≠ 0) (he : 0 ≤ e)
     (hB : 10 * (input.natAbs * R ^ e.natAbs) ≤ S.max.toNat) (d : Desc)
     (hd : descale S input e R = .ok d) : d.lossy = 0 := by
@@ -2526,6 +2687,278 @@ theorem descale_lossless_small (S : IntTy) (hs : S.signed = true) (h8 : 8 ≤ S.
     by_cases hn : input < 0 <;> simp [hn]; omega
   have hn : ¬ e < 0 := by omega
   simp only [hn, if_false] at hd
-  exact descalePos_lossless S hs h8 _ R hR1 hR _ hB _ _ _ _ _ d hok (Nat.le_refl _) hd
+  exact descalePos_lossless S h8 _ R hR1 hR _ hB _ _ _ _ _ d hok (Nat.le_refl _) hd
+
+/-! ### the capacity of `scaled_integer` (`to_chars_static`, `to_string`, `operator<<`) -/
+
+theorem fillText_ok {b : Buf} {first : Nat} {text : Option (List Char)} {n : Int} {r : TCR}
+    (h : fillText b first text n = .ok r) : r.ok = true := by
+  unfold fillText at h
+  split at h
+  · cases h
+  · split at h
+    · split at h
+      · cases h
+      · cases h; rfl
+    · cases h
+    · cases h
+
+theorem choose_not_tooLarge (i : Info) (h : 0 < (solveFixed i).numSig ∨ 0 < (solveSci i).numSig) :
+    choose i ≠ .tooLarge := by
+  unfold choose
+  simp only
+  by_cases hf : (solveFixed i).numSig > 0
+  · split
+    · intro h; cases h
+    · intro h; cases h
+  · have hs : 0 < (solveSci i).numSig := by
+      rcases h with h | h
+      · exact absurd h hf
+      · exact h
+    have ht : tupGt (solveSci i).numSig (-(solveSci i).numChars) (solveFixed i).numSig (-(solveFixed i).numChars) = true := by
+      unfold tupGt
+      have : (solveSci i).numSig > (solveFixed i).numSig := by omega
+      simp [this]
+    rw [if_pos ⟨hs, ht⟩]; intro h; cases h
+
+/-- the positive-value routine succeeds whenever one of the two layouts keeps a digit -/
+theorem toCharsPositive_succeeds (b : Buf) (first : Nat) (ds : List Char) (x : Int)
+    (hk : 0 < (solveFixed (infoOf b.len first ds.length x)).numSig ∨
+          0 < (solveSci (infoOf b.len first ds.length x)).numSig) :
+    ∀ r, toCharsPositive b first ds x = .ok r → r.ok = true := by
+  intro r h
+  have hne := choose_not_tooLarge _ hk
+  unfold toCharsPositive toCharsPositiveWith at h
+  simp only at h
+  unfold infoOf at hne
+  split at h
+  · split at h
+    · cases h
+    · exact fillText_ok h
+  · exact fillText_ok h
+  · rename_i hc; exact absurd hc hne
+
+/-- `n + m` digits: a positive `s` followed by `m` zeros is below `10^K` only if it has at most `K` digits -/
+theorem digits_add_le (s m K : Nat) (hs : 0 < s) (h : s * 10 ^ m < 10 ^ K) :
+    (natDigits 10 s).length + m ≤ K := by
+  by_cases hm : m ≤ K
+  · have hK : 10 ^ K = 10 ^ (K - m) * 10 ^ m := by rw [← Nat.pow_add]; congr 1; omega
+    rw [hK] at h
+    have hlt : s < 10 ^ (K - m) := Nat.lt_of_mul_lt_mul_right h
+    have := natDigits_length_le 10 s (K - m) (by omega) hs hlt
+    omega
+  · exfalso
+    have h1 : 10 ^ K < 10 ^ m := Nat.pow_lt_pow_right (by omega) (by omega)
+    have h2 : 10 ^ m ≤ s * 10 ^ m := Nat.le_mul_of_pos_left _ hs
+    omega
+
+/-- `num_digits_from_binary(N, 10)` decimal digits hold every `N`-bit number (and `2^N` itself) -/
+theorem fromBinary10_spec (N : Nat) : 2 ^ N < 10 ^ ((N * 1000 + 3322) / 3321) := by
+  have h := pow_two_lt_pow_ten 1000 3321 (by omega) two_pow_3321 N
+  exact Nat.lt_of_lt_of_le h (Nat.pow_le_pow_right (by omega) (by omega))
+
+/-- `num_digits_to_binary(E, R)` for the radixes 2…10: a natural number; for `R ≠ 10` enough bits for `R^E`;
+for `R = 10` the estimate `(3322·E + 678)/1000` can be ONE BIT SHORT (e.g. `E = 60`: 199 bits, `10^60 > 2^199`) -/
+theorem toBinary_spec (E R : Nat) (hR2 : 2 ≤ R) (hR : R ≤ 10) :
+    ∃ tb : Nat, numDigitsToBinary (E : Int) R = tb ∧ (R ≠ 10 → R ^ E ≤ 2 ^ tb) ∧
+      (R = 10 → 3322 * E ≤ tb * 1000 + 321) := by
+  have u2 : usedDigits (3 - 1) = 2 := by decide
+  have u3 : usedDigits (4 - 1) = 2 := by decide
+  have u4 : usedDigits (5 - 1) = 3 := by decide
+  have u5 : usedDigits (6 - 1) = 3 := by decide
+  have u6 : usedDigits (7 - 1) = 3 := by decide
+  have u8 : usedDigits (9 - 1) = 4 := by decide
+  have pw : ∀ (r k : Nat), r ≤ 2 ^ k → r ^ E ≤ 2 ^ (E * k) := by
+    intro r k h
+    calc r ^ E ≤ (2 ^ k) ^ E := Nat.pow_le_pow_left h E
+      _ = 2 ^ (E * k) := by rw [← Nat.pow_mul, Nat.mul_comm]
+  have hc : R = 2 ∨ R = 3 ∨ R = 4 ∨ R = 5 ∨ R = 6 ∨ R = 7 ∨ R = 8 ∨ R = 9 ∨ R = 10 := by omega
+  rcases hc with h | h | h | h | h | h | h | h | h <;> subst h
+  · exact ⟨E, rfl, fun _ => Nat.le_refl _, fun h => absurd h (by decide)⟩
+  · exact ⟨E * 2, by simp only [numDigitsToBinary, u2]; rfl, fun _ => pw 3 2 (by decide), fun h => absurd h (by decide)⟩
+  · exact ⟨E * 2, by simp only [numDigitsToBinary, u3]; rfl, fun _ => pw 4 2 (by decide), fun h => absurd h (by decide)⟩
+  · exact ⟨E * 3, by simp only [numDigitsToBinary, u4]; rfl, fun _ => pw 5 3 (by decide), fun h => absurd h (by decide)⟩
+  · exact ⟨E * 3, by simp only [numDigitsToBinary, u5]; rfl, fun _ => pw 6 3 (by decide), fun h => absurd h (by decide)⟩
+  · exact ⟨E * 3, by simp only [numDigitsToBinary, u6]; rfl, fun _ => pw 7 3 (by decide), fun h => absurd h (by decide)⟩
+  · exact ⟨E * 3, by simp only [numDigitsToBinary]; rfl, fun _ => pw 8 3 (by decide), fun h => absurd h (by decide)⟩
+  · exact ⟨E * 4, by simp only [numDigitsToBinary, u8]; rfl, fun _ => pw 9 4 (by decide), fun h => absurd h (by decide)⟩
+  · refine ⟨(E * 3322 + 678) / 1000, ?_, fun h => absurd rfl h, fun _ => by omega⟩
+    simp only [numDigitsToBinary]
+    rw [Int.tdiv_eq_ediv_of_nonneg (by omega)]
+    omega
+
+/-- the capacity for a non-negative exponent: sign + `num_digits_from_binary(digits + tb, 10)` -/
+theorem scaledCapacity_nonneg_exp (T : IntTy) (e : Int) (R : Nat) (he : 0 ≤ e) (tb : Nat)
+    (htb : numDigitsToBinary e R = tb) :
+    scaledCapacity T e R =
+      (((if T.signed then 1 else 0) + ((T.digits + tb) * 1000 + 3322) / 3321 : Nat) : Int) := by
+  unfold scaledCapacity
+  have h1 : max (-e) 0 = 0 := by omega
+  have h2 : max 0 e = e := by omega
+  simp only [h1, h2, htb, numDigitsFromBinary]
+  rw [Int.tdiv_eq_ediv_of_nonneg (by omega)]
+  cases T.signed <;> simp <;> omega
+
+/-- the value bound behind the capacity: `|rep|·R^E < 10^K` with `K = num_digits_from_binary(digits + tb, 10)`;
+for radix ten this needs the side condition on the digit count (true of every built-in type) -/
+theorem value_lt_capacity (D E R tb a : Nat) (ha : a ≤ 2 ^ D)
+    (h1 : R ≠ 10 → R ^ E ≤ 2 ^ tb) (h2 : R = 10 → 3322 * E ≤ tb * 1000 + 321)
+    (hside : R = 10 → 320 ≤ D * 1000 % 3321) :
+    a * R ^ E < 10 ^ (((D + tb) * 1000 + 3322) / 3321) := by
+  by_cases h10 : R = 10
+  · subst h10
+    have hq := pow_two_lt_pow_ten 1000 3321 (by omega) two_pow_3321 D
+    have h2' := h2 rfl
+    have hs' := hside rfl
+    have hle : D * 1000 / 3321 + 1 + E ≤ ((D + tb) * 1000 + 3322) / 3321 := by omega
+    calc a * 10 ^ E < 10 ^ (D * 1000 / 3321 + 1) * 10 ^ E :=
+          Nat.mul_lt_mul_of_pos_right (Nat.lt_of_le_of_lt ha hq) (Nat.pow_pos (by omega))
+      _ = 10 ^ (D * 1000 / 3321 + 1 + E) := (Nat.pow_add 10 (D * 1000 / 3321 + 1) E).symm
+      _ ≤ 10 ^ (((D + tb) * 1000 + 3322) / 3321) := Nat.pow_le_pow_right (by omega) hle
+  · calc a * R ^ E ≤ 2 ^ D * 2 ^ tb := Nat.mul_le_mul ha (h1 h10)
+      _ = 2 ^ (D + tb) := by rw [Nat.pow_add]
+      _ < 10 ^ (((D + tb) * 1000 + 3322) / 3321) := fromBinary10_spec (D + tb)
+
+/-- for a non-negative input exponent the decimal exponent is non-negative and the value is never exceeded -/
+theorem descale_nonneg_exp (S : IntTy) (h8 : 8 ≤ S.bits) (input e : Int) (R : Nat) (hR2 : 2 ≤ R) (hR : R ≤ 10)
+    (hr : S.InRange input) (h0 : input ≠ 0) (he : 0 ≤ e) (d : Desc) (hd : descale S input e R = .ok d) :
+    ∃ m : Nat, d.exp = m ∧ d.sig.natAbs * 10 ^ m ≤ input.natAbs * R ^ e.natAbs := by
+  unfold descale at hd
+  simp only [h0, if_false] at hd
+  rw [IntTy.wrap_id (by omega) hr] at hd
+  have hok : SigOK S (decide (input < 0)) input := by
+    refine ⟨hr.1, hr.2, ?_⟩
+    by_cases hn : input < 0 <;> simp [hn]; omega
+  have hn : ¬ e < 0 := by omega
+  simp only [hn, if_false] at hd
+  obtain ⟨m, j, e1, _, e3, _⟩ := descalePos_value S h8 _ R (by omega) hR _ _ _ _ _ d hok hd
+  exact ⟨m, by omega, e3⟩
+
+/-- every value of the rep type is a value of the significand type -/
+theorem sigTy_range (T : IntTy) (rep : Int) (hr : T.InRange rep) : (sigTy T).InRange rep := by
+  unfold sigTy
+  split
+  · exact hr
+  · rename_i h
+    obtain ⟨h1, h2⟩ := hr
+    unfold IntTy.digits at h
+    unfold IntTy.InRange IntTy.lowest IntTy.max at *
+    have e63 : (2 : Int) ^ 63 = 9223372036854775808 := by decide
+    cases hs : T.signed
+    · simp only [hs, if_false, Bool.false_eq_true] at h h1 h2
+      have hp : (2 : Int) ^ T.bits ≤ 2 ^ 63 := two_pow_le (by omega)
+      simp [i64]; omega
+    · simp only [hs, if_true] at h h1 h2
+      have hp : (2 : Int) ^ (T.bits - 1) ≤ 2 ^ 63 := two_pow_le (by omega)
+      simp [i64]; omega
+
+/-- success of `cnl::to_chars` on a non-zero `scaled_integer`, given what `descale` returned and that one of the
+layouts keeps a digit in the space left after the sign -/
+theorem scaledToChars_ok_of (T : IntTy) (e : Int) (radix len : Nat) (rep : Int) (d : Desc)
+    (hlen : len ≠ 0) (hrep : rep ≠ 0)
+    (hd : descale (sigTy T) rep e radix = .ok d) (h0 : d.sig ≠ 0)
+    (hmn : ¬ ((sigTy T).signed = true ∧ d.sig < -(sigTy T).max))
+    (hk : 0 < (solveFixed (infoOf len (if d.sig < 0 then 1 else 0) (natDigits 10 d.sig.natAbs).length d.exp)).numSig ∨
+          0 < (solveSci (infoOf len (if d.sig < 0 then 1 else 0) (natDigits 10 d.sig.natAbs).length d.exp)).numSig) :
+    ∀ r, scaledToChars T e radix len rep = .ok r → r.ok = true := by
+  intro r hrun
+  have hpos : 0 < len := Nat.pos_of_ne_zero hlen
+  unfold scaledToChars scaledToCharsWith at hrun
+  simp only [hlen, hrep, if_false, hd, h0, hmn] at hrun
+  by_cases hn : d.sig < 0
+  · simp only [hn, if_true, Buf.write, Buf.fresh, hpos] at hrun hk
+    exact toCharsPositive_succeeds ⟨len, (List.replicate len none).set 0 (some '-')⟩ 1 _ d.exp hk r hrun
+  · simp only [hn, if_false] at hrun hk
+    exact toCharsPositive_succeeds (Buf.fresh len) 0 _ d.exp hk r hrun
+
+/-- `staticText` of a run that meets the contract and succeeds -/
+theorem staticText_ok (cap : Nat) (run : Nat → Res TCR) (r : TCR) (hrun : run cap = .ok r)
+    (hc : Contract cap r) (hok : r.ok = true) : ∃ t, staticText (cap : Int) run = .ok t := by
+  obtain ⟨p, hp, hp0, hple, _⟩ := hc.2.2.1 hok
+  refine ⟨r.text, ?_⟩
+  unfold staticText
+  have hc0 : ¬ ((cap : Int) < 0) := by omega
+  simp only [hc0, if_false, Int.toNat_natCast, hrun, hok, hp]
+  have : ¬ (p = 0 ∨ p > cap) := by omega
+  simp [this]
+
+/-- **the capacity of `scaled_integer` suffices — non-negative exponents.**  For every rep type, every value,
+every exponent `e ≥ 0` and every radix 2…10 (for radix ten: digit counts with `1000·digits mod 3321 ≥ 320`, which
+holds for 7, 8, 15, 16, 31, 32, 63, 64, 127, 128), `to_chars_static` succeeds — or the descaled significand is the
+most negative value (the open finding) -/
+theorem scaledStaticText_nonneg_exp (T : IntTy) (e : Int) (R : Nat) (rep : Int)
+    (he : 0 ≤ e) (hR2 : 2 ≤ R) (hR : R ≤ 10)
+    (hside : R = 10 → 320 ≤ T.digits * 1000 % 3321) (hbits : 1 ≤ T.bits) (hr : T.InRange rep) :
+    (∃ t, scaledStaticText T e R rep = .ok t) ∨
+    ((sigTy T).signed = true ∧ scaledStaticText T e R rep = .unreachable "assert: most negative value") := by
+  obtain ⟨tb, htb, hp1, hp2⟩ := toBinary_spec e.natAbs R hR2 hR
+  have hee : ((e.natAbs : Nat) : Int) = e := by omega
+  rw [hee] at htb
+  have hcap := scaledCapacity_nonneg_exp T e R he tb htb
+  generalize hK : ((T.digits + tb) * 1000 + 3322) / 3321 = K at hcap
+  have hK1 : 1 ≤ K := by omega
+  have hval := value_lt_capacity T.digits e.natAbs R tb rep.natAbs (natAbs_le_two_pow_digits T rep hr hbits) hp1 hp2 hside
+  rw [hK] at hval
+  generalize hlen : (if T.signed then 1 else 0) + K = len at hcap
+  have hlen0 : len ≠ 0 := by omega
+  unfold scaledStaticText
+  rw [hcap]
+  have hrs := sigTy_range T rep hr
+  by_cases hrep : rep = 0
+  · left
+    obtain ⟨r, hrun, hc⟩ := scaledToChars_stays_inside T e R len rep hrs hR2 hR |>.resolve_right (by
+      intro h
+      have : scaledToChars T e R len rep = .ok ⟨some 1, true, ⟨len, (List.replicate len none).set 0 (some '0')⟩⟩ := by
+        have hpos : 0 < len := Nat.pos_of_ne_zero hlen0
+        simp [scaledToChars, scaledToCharsWith, hlen0, hrep, Buf.write, Buf.fresh, hpos]
+      rw [this] at h; cases h.2)
+    have hok : r.ok = true := by
+      have : scaledToChars T e R len rep = .ok ⟨some 1, true, ⟨len, (List.replicate len none).set 0 (some '0')⟩⟩ := by
+        have hpos : 0 < len := Nat.pos_of_ne_zero hlen0
+        simp [scaledToChars, scaledToCharsWith, hlen0, hrep, Buf.write, Buf.fresh, hpos]
+      rw [this] at hrun; cases hrun; rfl
+    exact staticText_ok len _ r hrun hc hok
+  · obtain ⟨d, hd, hsok⟩ := descale_ok (sigTy T) (sigTy_bits T) rep e R hR2 hR hrs hrep
+    have hsign : (rep < 0 ↔ d.sig < 0) ∧ d.sig ≠ 0 := by
+      obtain ⟨_, _, h3⟩ := hsok
+      by_cases hn : rep < 0 <;> simp [hn] at h3 ⊢ <;> omega
+    by_cases hmn : (sigTy T).signed = true ∧ d.sig < -(sigTy T).max
+    · right
+      refine ⟨hmn.1, ?_⟩
+      unfold staticText
+      have hc0 : ¬ ((len : Int) < 0) := by omega
+      simp only [hc0, if_false, Int.toNat_natCast]
+      unfold scaledToChars scaledToCharsWith
+      simp only [hlen0, hrep, if_false, hd, hsign.2, hmn, and_self, if_true]
+    · left
+      obtain ⟨r, hrun, hc⟩ := scaledToChars_contract T e R len rep d hlen0 hrep hd hsign.2 hmn
+      obtain ⟨m, hm, hle⟩ := descale_nonneg_exp (sigTy T) (sigTy_bits T) rep e R hR2 hR hrs hrep he d hd
+      have hs0 : 0 < d.sig.natAbs := Int.natAbs_pos.mpr hsign.2
+      have hdig := digits_add_le d.sig.natAbs m K hs0 (Nat.lt_of_le_of_lt hle hval)
+      -- a negative value needs a signed rep type: the sign's cell is part of the capacity
+      have hfirst : (if d.sig < 0 then 1 else 0) + K ≤ len := by
+        by_cases hn : d.sig < 0
+        · have hrn : rep < 0 := hsign.1.mpr hn
+          have hsg : T.signed = true := by
+            cases hs : T.signed with
+            | true => rfl
+            | false => have := hr.1; simp [IntTy.lowest, hs] at this; omega
+          simp only [hsg, if_true] at hlen
+          simp only [hn, if_true]; omega
+        · simp only [hn, if_false]; omega
+      have hn0 : 0 < (natDigits 10 d.sig.natAbs).length := by
+        have := natDigitsF_pos 10 d.sig.natAbs d.sig.natAbs hs0
+        exact this
+      have hk : 0 < (solveFixed (infoOf len (if d.sig < 0 then 1 else 0) (natDigits 10 d.sig.natAbs).length d.exp)).numSig := by
+        generalize (natDigits 10 d.sig.natAbs).length = n at hdig hn0 ⊢
+        generalize (if d.sig < 0 then 1 else 0) = first at hfirst ⊢
+        simp only [solveFixed, infoOf, hm]
+        have hgt : ¬ ((n : Int) + (m : Int) > (len : Int) - (first : Int)) := by omega
+        rw [if_neg hgt]
+        have hm0 : ¬ ((m : Int) < 0) := by omega
+        simp only [hm0, decide_false, Bool.false_eq_true, if_false]
+        omega
+      have hok := scaledToChars_ok_of T e R len rep d hlen0 hrep hd hsign.2 hmn (Or.inl hk) r hrun
+      exact staticText_ok len _ r hrun hc hok
 
 end Cnl.Charconv
